@@ -125,3 +125,34 @@ Theorem C09_source_eval_scope_is_fresh_chain :
 Proof. exact gen_eval_scope_is_fresh_chain. Qed.
 Print Assumptions C09_source_eval_scope_is_fresh_chain.
 
+
+(** which isinstance test of the dispatch catches each Python type — including the kinds the
+    value universe does not distinguish (bytearray, frozenset, dict / list subclasses): a
+    bytearray is caught by the leaf test, so it comes through as the identical object *)
+Theorem C09_source_isinstance_ladder_is_model :
+  snd gen_get_formatted_iterable_isinstance_tests = []
+  /\ gen_format_keep_type_isinstance_tests = ([], [])
+  /\ gen_vformat_isinstance_tests = ([], [])
+  /\ ladder_verdicts (fst gen_get_formatted_iterable_isinstance_tests)
+     = [("str", ["str"]);
+        ("bytes", ["bytearray"; "bytes"]);
+        ("bytearray", ["bytearray"; "bytes"]);
+        ("list", ["Sequence"; "Set"]);
+        ("CommentedSeq", ["Sequence"; "Set"]);
+        ("tuple", ["Sequence"; "Set"]);
+        ("set", ["Sequence"; "Set"]);
+        ("frozenset", ["Sequence"; "Set"]);
+        ("dict", ["Mapping"]);
+        ("OrderedDict", ["Mapping"]);
+        ("CommentedMap", ["Mapping"]);
+        ("Context", ["Mapping"]);
+        ("PyString", ["self.special_types"]);
+        ("SicString", ["self.special_types"]);
+        ("Jsonify", ["self.special_types"]);
+        ("NoneType", []);
+        ("bool", []);
+        ("int", []);
+        ("float", []);
+        ("object", [])].
+Proof. exact isinstance_ladder_is_model. Qed.
+Print Assumptions C09_source_isinstance_ladder_is_model.
